@@ -32,8 +32,21 @@ def _mod(a, b):
     return f'(- {a} (* {b} {_floordiv(a, b)}))'
 
 
+# True division of ints followed by int(): Python computes the correctly rounded double of the exact quotient and
+# truncates it.  For 0 <= a < 2^53 and 1 <= b < 2^53 that equals a // b (the distance of a non-integral a/b from the
+# next integer is >= 1/b, more than the rounding error); outside that range the result is left UNCONSTRAINED here - an
+# over-approximation: a lemma refuted through it is only a candidate and must be confirmed on the real code.
+SIDE = {'decls': [], 'asserts': [], 'quots': []}
+
+
+def reset_side():
+    SIDE['decls'].clear()
+    SIDE['asserts'].clear()
+    SIDE['quots'].clear()
+
+
 class Sym:
-    """symbolic value: kind in int | bool | none | maybeNone(int with isnone flag)"""
+    """symbolic value: kind in int | bool | none | maybeNone(int with isnone flag) | quot (int / int, a double)"""
 
     def __init__(self, kind, term, isnone=None):
         self.kind, self.term, self.isnone = kind, term, isnone
@@ -72,6 +85,8 @@ def expr(node, env):
             return Sym('int', f'(* {a.term} {b.term})')
         if isinstance(op, ast.FloorDiv):
             return Sym('int', _floordiv(a.term, b.term))
+        if isinstance(op, ast.Div):
+            return Sym('quot', (a.term, b.term))
         if isinstance(op, ast.Mod):
             return Sym('int', _mod(a.term, b.term))
         raise Unsupported(f'operator {type(op).__name__}')
@@ -113,6 +128,14 @@ def expr(node, env):
     if isinstance(node, ast.Call) and isinstance(node.func, ast.Name) and node.func.id == 'int' \
             and len(node.args) == 1:
         v = expr(node.args[0], env)
+        if v.kind == 'quot':
+            a, b = v.term
+            name = f'fq{len(SIDE["decls"])}'
+            SIDE['decls'].append(name)
+            SIDE['quots'].append((name, a, b))
+            SIDE['asserts'].append(f'(=> (and (<= 0 {a}) (< {a} 9007199254740992) (<= 1 {b}) (< {b} 9007199254740992)) '
+                                   f'(= {name} (div {a} {b})))')
+            return Sym('int', name)
         if v.kind != 'int':
             raise Unsupported('int() of non-int')
         return v
